@@ -41,6 +41,16 @@ Theorem C12_views_after_add :
 Proof. exact add_entries_wf. Qed.
 Print Assumptions C12_views_after_add.
 
+(* the same for wl[id, name] = v (a cell of a column other than concept/language) *)
+Theorem C12_views_after_setitem :
+  forall (K : keys) (w : wl) (id : Z) (s : string) (v : cell) (w' : wl),
+    wf K w -> set_cell w id s v = Some w' ->
+    (forall k, resolve_item (w_names w) s = Some k -> k <> w_ri w /\ k <> w_ci w) ->
+    wf K w' /\ map fst (w_data w') = map fst (w_data w) /\ w_index w' = w_index w
+    /\ w_ri w' = w_ri w /\ w_ci w' = w_ci w.
+Proof. exact set_cell_wf. Qed.
+Print Assumptions C12_views_after_setitem.
+
 (* ---- array_each_id_once ------------------------------------------------------ *)
 (* every row id occurs at exactly one position of _array; that position is on a
    line _idx records for the row's concept and in the column of the row's language *)
